@@ -65,7 +65,10 @@ pub async fn restart_node_service(
         );
         // reuse the same port and root dir to retain peer id.
         service_control
-            .uninstall(&current_node_clone.service_name, false)
+            .uninstall(
+                &current_node_clone.service_name,
+                current_node_clone.user_mode,
+            )
             .map_err(|err| {
                 eyre!(
                     "Error while uninstalling node {:?} with: {err:?}",
@@ -83,7 +86,7 @@ pub async fn restart_node_service(
             log_format: current_node_clone.log_format,
             max_archived_log_files: current_node_clone.max_archived_log_files,
             max_log_files: current_node_clone.max_log_files,
-            metrics_port: None,
+            metrics_port: current_node_clone.metrics_port,
             name: current_node_clone.service_name.clone(),
             network_id: current_node_clone.network_id,
             node_ip: current_node_clone.node_ip,
@@ -96,12 +99,14 @@ pub async fn restart_node_service(
             upnp: current_node_clone.upnp,
         }
         .build()?;
-        service_control.install(install_ctx, false).map_err(|err| {
-            eyre!(
-                "Error while installing node {:?} with: {err:?}",
-                current_node_clone.service_name
-            )
-        })?;
+        service_control
+            .install(install_ctx, current_node_clone.user_mode)
+            .map_err(|err| {
+                eyre!(
+                    "Error while installing node {:?} with: {err:?}",
+                    current_node_clone.service_name
+                )
+            })?;
         service_manager.start().await?;
     } else {
         debug!("Starting a new node since retain peer id is false.");
